@@ -28,3 +28,48 @@ Theorem C11_falls_back :
   forall sp st w r, reconcile sp st w = Some r -> falls_back sp st w (obs_of r) = true.
 Proof. exact falls_back_holds. Qed.
 Print Assumptions C11_falls_back.
+
+(* ---------- Finalize of the blue-green Deployment control plane: "on every attempt including retries" ---------- *)
+From RV Require Model.BGFinal Proofs.BGFinal.
+(* the attempt that restores the user's strategy reports done (the executor then records Completed) only when, on the
+   Deployment as that attempt leaves it, every pod is updated and ready and the workload is un-paused *)
+Theorem C11_bluegreen_first_attempt_done_means_ready : forall d r d',
+  BGFinal.bd_restored d = false -> BGFinal.finalize false d = (r, d') -> r = BGFinal.FinDone -> BGFinal.all_updated_and_ready d' = true.
+Proof. exact Proofs.BGFinal.first_attempt_done_means_ready. Qed.
+Print Assumptions C11_bluegreen_first_attempt_done_means_ready.
+(* "on every attempt including retries" does NOT hold of the code (known finding F6): a retry on an already restored
+   Deployment waits on an empty object and reports done whatever the pods do.  The witness is replayed on the real
+   control plane by the bgfinal engine on every run. *)
+Theorem C11_bluegreen_every_attempt_done_means_ready_refuted :
+  exists d d', BGFinal.finalize false d = (BGFinal.FinDone, d') /\ BGFinal.all_updated_and_ready d' = false.
+Proof. exact Proofs.BGFinal.every_attempt_done_means_ready_refuted. Qed.
+Print Assumptions C11_bluegreen_every_attempt_done_means_ready_refuted.
+Theorem C11_bluegreen_history_after_restore_always_done : forall sts d, BGFinal.bd_restored d = true ->
+  forall r d', In (r, d') (BGFinal.attempts false d sts) -> r = BGFinal.FinDone.
+Proof. exact Proofs.BGFinal.history_after_restore_always_done. Qed.
+Print Assumptions C11_bluegreen_history_after_restore_always_done.
+(* every attempt leaves the workload released from control and un-paused, or finds it so *)
+Theorem C11_bluegreen_finalize_releases : forall d r d',
+  BGFinal.finalize false d = (r, d') ->
+  BGFinal.bd_restored d' = true /\ (BGFinal.bd_restored d = false -> BGFinal.bd_released d' = true /\ BGFinal.bd_paused d' = false).
+Proof. exact Proofs.BGFinal.finalize_releases. Qed.
+Print Assumptions C11_bluegreen_finalize_releases.
+
+(* ---------- Finalize of the partition-style and canary-style Deployment control planes ---------- *)
+From RV Require Model.CtlPlane Proofs.CtlPlane.
+(* success (the executor then records Completed) only on a workload that has been handed back -- for every API call that
+   may have been made to fail on the way *)
+Theorem C11_partition_deployment_finalize_done_means_released : forall f d d',
+  CtlPlane.pd_claimed d = true -> CtlPlane.pd_paused d = true ->
+  CtlPlane.pdep_finalize false f d = (CtlPlane.Done, d') -> CtlPlane.pdep_released d' = true.
+Proof. exact Proofs.CtlPlane.pdep_finalize_done_means_released. Qed.
+Print Assumptions C11_partition_deployment_finalize_done_means_released.
+Theorem C11_canary_deployment_finalize_done_means_released : forall p wr f d d',
+  CtlPlane.cdep_finalize p wr f d = (CtlPlane.Done, d') -> CtlPlane.cdep_released d' = true.
+Proof. exact Proofs.CtlPlane.cdep_finalize_done_means_released. Qed.
+Print Assumptions C11_canary_deployment_finalize_done_means_released.
+(* "where the policy is to wait": with WaitResume, only when the promoted Deployment is fully updated and available *)
+Theorem C11_canary_deployment_finalize_done_means_promoted : forall p f d d',
+  CtlPlane.cdep_finalize p true f d = (CtlPlane.Done, d') -> CtlPlane.cdep_promoted p (CtlPlane.cd_status d) = true.
+Proof. exact Proofs.CtlPlane.cdep_finalize_done_means_promoted. Qed.
+Print Assumptions C11_canary_deployment_finalize_done_means_promoted.
